@@ -1,0 +1,11 @@
+//go:build verif
+
+package proxy
+
+// Verification hook for property C35 (live config). Accessor only.
+
+// C35RouteGeneration returns the route generation of the current runtime configuration snapshot.
+func (p *Proxy) C35RouteGeneration() uint64 {
+	_, generation := p.configSnapshot()
+	return generation
+}
